@@ -96,6 +96,17 @@ func genBattle(r *Rng, maxW int, limits bool) *BattleCase {
 		if r.Chance(1, 6) {
 			w.Code[0] = mars.Insn{Op: mars.MOV, Mod: mars.MI, AM: mars.DIR, BM: mars.DIR, A: 0, B: 1}
 		}
+		if r.Chance(1, 8) {
+			// blank instructions (what an empty cell holds) at the end or the start of the code: loading them over
+			// another warrior, or over the warrior's own wrapped head, must overwrite what is there
+			for k := 0; k < 1+r.Intn(3) && k < l; k++ {
+				if r.Chance(1, 4) {
+					w.Code[k] = mars.Empty
+				} else {
+					w.Code[l-1-k] = mars.Empty
+				}
+			}
+		}
 		w.Start = r.Intn(l)
 		w.Off = r.Intn(m)
 		if r.Chance(1, 60) {
